@@ -2,6 +2,7 @@ package nodes
 
 import (
 	"fmt"
+	"sort"
 	"strconv"
 	"strings"
 
@@ -226,6 +227,13 @@ func (sn Struct[T, G]) Dependencies() []NodeDependency {
 		}
 	}
 	verifPermute(output)
+
+	// Go's map iteration order is random, and the versions remembered in
+	// depVersions are compared positionally: always list dependencies in the
+	// same order.
+	sort.Slice(output, func(i, j int) bool {
+		return output[i].Name() < output[j].Name()
+	})
 	return output
 }
 
